@@ -1,10 +1,11 @@
 """C12 Commands modify only what they are documented to modify."""
-import arrayprop
+import arrayprop, directed
 
 
 def run(tier):
     return arrayprop.standard_run(
         "C12", tier, profiles=["mixed", "damage", "filters", "ranges", "syncheavy", "filters"], nquick=36, nthorough=300, sim=False,
+        directed_jobs=lambda s0: [(s0 + k, dict(nd=2, np=2, copies=2), "directed-fixframes", 0, directed.fix_frames) for k in (1, 2, 3)],
         rule="before and after every real command byte-level digests of the data trees (names, bytes, ns mtimes, links), of "
              "every parity stream, of every content copy and the list of all other files are recorded; TLC checks the frame "
              "of the command (C12_Frame) on every step: check/diff change nothing, scrub only content, sync no data file, "
